@@ -153,7 +153,7 @@ Qed.
 Theorem embed_one_over (b : R * R) : wfp b -> (0 < fst b \/ snd b < 0) ->
   one_over RN steps plo phi (E b) = Ok (E (1 / snd b, 1 / fst b)).
 Proof.
-  intros Wb Hs. unfold one_over.
+  intros Wb Hs. unfold one_over, prdiv.
   assert (Hs' : 0 < nth 0 (fst (E b)) 0 \/ last (snd (E b)) 0 < 0).
   { unfold embed; cbn [fst snd]. rewrite nth_repeat_lt_R by lia. rewrite last_as_nth, repeat_length, nth_repeat_lt_R by lia. exact Hs. }
   rewrite (precip_steps steps plo phi (E b) (WF_embed steps b Wb) Hs'). cbn [rbind].
